@@ -352,6 +352,26 @@ def dispatch_chain(fn: ast.FunctionDef, tr: Tr, kind: str) -> list:
     return out
 
 
+def first_match_loop(fn: ast.FunctionDef, make_vocab) -> tuple[str, str]:
+    """`for X in <seq>: if T(X): return X.attr` followed by `return None` -> (lean condition over `e`, attr)"""
+    body = [s for s in fn.body if not (isinstance(s, ast.Expr) and isinstance(s.value, ast.Constant) and isinstance(s.value.value, str))]
+    if len(body) != 2 or not isinstance(body[0], ast.For) or not isinstance(body[1], ast.Return):
+        raise NotTranslatable("not a `for … return` followed by one `return`")
+    loop, last = body
+    if not (last.value is None or (isinstance(last.value, ast.Constant) and last.value.value is None)):
+        raise NotTranslatable("the function does not end with `return None`")
+    if loop.orelse or not isinstance(loop.target, ast.Name) or len(loop.body) != 1 or not isinstance(loop.body[0], ast.If):
+        raise NotTranslatable("loop body is not one `if`")
+    test = loop.body[0]
+    x = loop.target.id
+    if test.orelse or len(test.body) != 1 or not isinstance(test.body[0], ast.Return) or not isinstance(test.body[0].value, ast.Attribute) \
+            or _attr_path(test.body[0].value.value) != x:
+        raise NotTranslatable("the `if` does not return an attribute of the loop variable")
+    seq = _attr_path(loop.iter)
+    tr = Tr(make_vocab(x))
+    return tr.boolean(test.test), test.body[0].value.attr, seq
+
+
 def _dispatch_to_lean(chain: list) -> str:
     lines = []
     for cond, leaf in chain[:-1]:
@@ -394,6 +414,9 @@ SPECS = [
                         ("size_in_weeks", "sizeInWeeks"), ("size_in_weekdays", "sizeInWeekdays"))],
     dict(name="period_get_subperiods", file=PERIOD, cls="Period", func="get_subperiods", kind="dispatch", leaf="periods", vocab=V_PERIOD,
          params="(p : Period) (u : DUnit)", typ="Except String (List Period)", fallback="p.subperiods u"),
+    dict(name="parameter_get_at_instant", module="GeneratedParam", file="openfisca_core/parameters/parameter.py", cls="Parameter",
+         func="_get_at_instant", kind="firstmatch", params="{V : Type} (l : List (OFCore.Param.Entry V)) (d : Int)", typ="Option V",
+         fallback="OFCore.Param.pget l d"),
     dict(name="holderSet_raises", file=HOLDER, cls="Holder", func="_set", kind="guards", stop_at="should_store_on_disk",
          vocab=V_HOLDER, params="(du pu : DUnit) (sz : Int)", skip=["value = self._to_array(value)"],
          fallback="OFCore.Tie.holderSetGuards du pu sz"),
@@ -427,17 +450,22 @@ def _selector_to_lean(chain: list) -> str:
     return "\n".join(lines)
 
 
-def translate(repo: str) -> tuple[str, dict]:
+MODULES = {"GeneratedGuards": ("OFCore.TieBase", "OFCore.Generated.Guards"), "GeneratedParam": ("OFCore.Param", "OFCore.Generated.Param")}
+
+
+def translate(repo: str, module: str = "GeneratedGuards") -> tuple[str, dict]:
     """the text of GeneratedGuards.lean and {name: 'translated' | 'fallback: reason'}"""
     trees: dict = {}
     status: dict = {}
     defs = []
     for sp in SPECS:
+        if sp.get("module", "GeneratedGuards") != module:
+            continue
         try:
             if sp["file"] not in trees:
                 trees[sp["file"]] = ast.parse(open(os.path.join(repo, sp["file"])).read())
             fn = _find(trees[sp["file"]], sp["cls"], sp["func"])
-            tr = Tr(sp["vocab"])
+            tr = Tr(sp.get("vocab", {}))
             if sp["kind"] == "guards":
                 chain = guard_chain(fn, tr, sp.get("skip", []), sp.get("stop_at"))
                 if not chain:
@@ -445,6 +473,13 @@ def translate(repo: str) -> tuple[str, dict]:
                 body = _chain_to_lean(chain, sp.get("raise_only", False))
                 typ = "Bool"
                 doc = f"{len(chain)} guards of `{sp['cls']}.{sp['func']}` ({sp['file']}), first match decides; `true` = raises"
+            elif sp["kind"] == "firstmatch":
+                cond, attr, seq = first_match_loop(fn, lambda x: {f"{x}.instant_str": ("e.date", "int"), "instant": ("d", "int")})
+                if attr != "value" or seq != "self.values_list":
+                    raise NotTranslatable(f"returns .{attr} of the elements of {seq}")
+                body = f"  match l.find? (fun e => {cond}) with\n  | some e => e.val\n  | none => none"
+                typ = sp["typ"]
+                doc = f"`{sp['cls']}.{sp['func']}` ({sp['file']}): first element of `values_list` passing the test, else None"
             elif sp["kind"] == "dispatch":
                 chain = dispatch_chain(fn, tr, sp["leaf"])
                 body = _dispatch_to_lean(chain)
@@ -464,25 +499,30 @@ def translate(repo: str) -> tuple[str, dict]:
         defs.append(f"/-- {doc} -/\ndef {sp['name']} {sp['params']} : {typ} :=\n{body}\n")
     tr_list = ", ".join(f'("{k}", {"true" if v == "translated" else "false"})' for k, v in status.items())
     txt = ("-- REGENERATED from the tree under test by harness/ofverif/translate.py on every run. Do not edit.\n"
-           "import OFCore.TieBase\n"
-           "namespace OFCore.Generated.Guards\nopen OFCore\n\n" + "\n".join(defs)
+           f"import {MODULES[module][0]}\n"
+           f"namespace {MODULES[module][1]}\nopen OFCore\n\n" + "\n".join(defs)
            + f"\ndef translated : List (String × Bool) := [{tr_list}]\n"
-           "end OFCore.Generated.Guards\n")
+           f"end {MODULES[module][1]}\n")
     return txt, status
 
 
 def regenerate(repo: str, lean_root: str) -> tuple[bool, dict]:
-    txt, status = translate(repo)
-    path = os.path.join(lean_root, "OFCore", "GeneratedGuards.lean")
-    old = open(path).read() if os.path.exists(path) else None
-    if old != txt:
-        with open(path, "w") as f:
-            f.write(txt)
-    return old != txt, status
+    changed, status = False, {}
+    for module in MODULES:
+        txt, st = translate(repo, module)
+        status.update(st)
+        path = os.path.join(lean_root, "OFCore", module + ".lean")
+        old = open(path).read() if os.path.exists(path) else None
+        if old != txt:
+            with open(path, "w") as f:
+                f.write(txt)
+            changed = True
+    return changed, status
 
 
 if __name__ == "__main__":
     import sys
-    t, s = translate(sys.argv[1] if len(sys.argv) > 1 else "/repo")
-    print(t)
-    print(s)
+    for m in MODULES:
+        t, s = translate(sys.argv[1] if len(sys.argv) > 1 else "/repo", m)
+        print(t)
+        print(s)
